@@ -264,8 +264,9 @@ static void mssm_base(vh::Rng& r, int maxpaths) {
       const Par& pr = pars[cmb.first]; const Tg& t = tg[cmb.second];
       gen::MssmPoint tmp = base; const double p0 = pr.ref(tmp);
       auto G = [&](double x, bool& ok) { gen::MssmPoint q = base; pr.ref(q) = x; try { MSSMNoFV_onshell m = gen::make_mssm(q); ok = !m.get_problems().have_problem(); return t.g(m); } catch (const Error&) { ok = false; return 0.0; } };
+      // (MA is scanned down to MZ: base values start at 300 GeV)
       double lo = 0, hi = 0, prevx = 0, prevg = 0; bool found = false, havep = false;
-      for (int s = 0; s <= 40 && !found; ++s) { const double x = p0 * std::pow(10.0, -0.5 + s / 40.0); bool ok; const double g = G(x, ok); if (!ok) { havep = false; continue; } if (havep && g * prevg < 0) { lo = prevx; hi = x; found = true; } prevx = x; prevg = g; havep = true; }
+      for (int s = 0; s <= 40 && !found; ++s) { const double x = p0 * (std::string(pr.n) == "MA" ? std::pow(10.0, -1.6 + 2.1 * s / 40.0) : std::pow(10.0, -0.5 + s / 40.0)); bool ok; const double g = G(x, ok); if (!ok) { havep = false; continue; } if (havep && g * prevg < 0) { lo = prevx; hi = x; found = true; } prevx = x; prevg = g; havep = true; }
       if (!found) continue;
       bool ok; double glo = G(lo, ok);
       for (int bi = 0; bi < 200; ++bi) { const double mid = 0.5 * (lo + hi); if (mid == lo || mid == hi) break; const double gm = G(mid, ok); if (!ok) break; if (gm * glo <= 0) hi = mid; else { lo = mid; glo = gm; } }
